@@ -33,6 +33,7 @@ type Obl struct {
 	Stale  string // non-empty: failed without a solver (contract-stale etc.)
 	Bounded string // non-empty: result is bounded (unroll k), never counted as proved
 	Pos    string
+	Replay *replaySpec
 }
 
 type Unit struct {
@@ -87,6 +88,7 @@ type Unit struct {
 	outerDecl *ast.FuncDecl
 	epochN int
 	inAtomic int
+	replay *replaySpec
 }
 
 const maxPaths = 6000
@@ -100,7 +102,7 @@ func (u *Unit) oblige(st *State, name, kind, text, goal string, quant bool) {
 	full := u.name + "#" + name
 	o := u.obls[full]
 	if o == nil {
-		o = &Obl{Name: full, Kind: kind, Unit: u.name, Text: text, D: u.d, Props: u.props(), Bounded: u.bounded}
+		o = &Obl{Name: full, Kind: kind, Unit: u.name, Text: text, D: u.d, Props: u.props(), Bounded: u.bounded, Replay: u.replay}
 		u.obls[full] = o
 		u.order = append(u.order, full)
 	}
